@@ -14,7 +14,7 @@ CONSTANTS
   DefMask <- AllDef
   MaxActs = 1
   WithMonitors = TRUE
-  EnvOps <- PlanOps
+  EnvOps <- PlanOpsT
   EnvActs <- PlanActs
   EnvPoints <- PlanPoints
 INIT Init
